@@ -1,6 +1,6 @@
 (** C05 -- Calls bind by position, return the executed return value, and unwind cleanly. *)
 From Pakhi Require Import Base Float64 Syntax Tables Lexer Interp.
-From Pakhi.Proofs Require Import CallValue Assoc Scope Control WF WFOps FrameInv NoPanic Skeleton.
+From Pakhi.Proofs Require Import CallValue Assoc Scope Control WF WFOps FrameInv NoPanic SkelDefs Skeleton.
 Local Open Scope nat_scope.
 
 (* the value of a call: the callee's body ran from its opening brace with exactly the positional bindings in a fresh scope
